@@ -1,4 +1,4 @@
-import GnoVerif.Proofs.C06Clause
+import GnoVerif.Proofs.C06Hist
 /-!
 C06 — the persisted object graph stays consistent after every transaction.
 
@@ -23,17 +23,26 @@ What is proved here, for ALL heaps, realms, operands and fuel values:
   object), every phase of finalize;
 * at the end of the transaction that invariant IS the statement's clause
   (`refcount_clause_at_end_of_transaction`);
-* the full statement FAILS on the unchanged code: `owner_stale_counterexample`
-  (an object moved between two persisted parents inside one transaction keeps
-  its old owner), hence `object_graph_consistent_statement` is refuted.
+* over HISTORIES (`every_history_keeps_refcounts`): at every transaction boundary
+  of every history of valid transactions of one realm (allocations, writes,
+  finalize, end of transaction; a transaction whose finalizer panics is dropped)
+  every reference count is exact;
+* the full statement FAILS on the unchanged code, in three ways, each a
+  kernel-evaluated counterexample that the harness replays on the real VM:
+  `owner_stale_counterexample` (an object moved between two persisted parents
+  inside one transaction keeps its old owner), `owner_on_escaped_counterexample`
+  (an escaped object re-attached under a new parent gets an owner),
+  `dangling_counterexample` (a callee realm's finalize deletes an object the
+  caller re-attaches afterwards: a reference to a missing object is persisted);
+  hence `object_graph_consistent_statement` is refuted.
 
-What is NOT proved: that `InTx` is re-established for the NEXT transaction (it
-needs the no-dangling clause: registers and slots never reach a deleted object)
-— so the history-level statement `refcounts_exact_statement` stays open; the
-owner clause (false as stated, see the counterexample), no-dangling,
-reachability and the stored-hash clause are checked by the correspondence run
-and the raw-store oracle only; nested finalizes of several realms are covered
-by correspondence only.
+What is NOT proved: that the concrete heap-machine programs only perform VALID
+writes (the written object, if it has an id, belongs to the executing realm and
+is not deleted) — for real programs that is the VM's readonly check plus the
+no-dangling clause, and `dangling_counterexample` shows that with nested
+finalizes of several realms a program CAN reach a deleted object; the owner
+clause (false as stated), no-dangling, reachability and the stored-hash clause
+are checked by the correspondence run and the raw-store oracle only.
 Helper lemmas: Proofs/C06Basic, C06Count, C06Update, C06Finalize, C06Closure,
 C06Marks, C06Tx, C06Clause.
 -/
@@ -77,6 +86,28 @@ theorem object_graph_consistent_counterexample : ¬ object_graph_consistent_stat
   unfold Inv at this
   rw [owner_stale_counterexample] at this
   exact absurd this (by decide)
+
+/-! ### two more findings: an owner on an escaped object, a dangling reference -/
+
+/-- tx1: R0 = x; R1 = x   tx2: R1 = nil   tx3: n := &Node{}; n.L = x; R0 = nil; R0 = n -/
+def reownWitness : List (Nat × List Char) :=
+  [(0, ['N','0','_','P','0','0','P','1','0']),
+   (0, ['Z','0','_','P','1','0']),
+   (0, ['G','0','0','N','1','_','l','1','0','Z','2','_','P','0','2','P','0','1'])]
+
+/-- An escaped object whose last reference is dropped and which is re-attached under a new parent
+    in the same transaction ends up singly referenced, escaped, AND with an owner recorded
+    (incRefCreatedDescendants' "a deleted real became undeleted" branch re-owns it). -/
+theorem owner_on_escaped_counterexample : verdict (history reownWitness) = some .ownerOnEscaped := by decide
+
+/-- realm 1 (hb): tx1: Q0 = ha.New()   tx2: x := Q0; ha.Link(x,x); Q0 = nil; ha.Link(x,nil); Q1 = x -/
+def danglingWitness : List (Nat × List Char) :=
+  [(1, ['N','0','_','P','0','0']),
+   (1, ['G','0','0','l','0','0','Z','1','_','P','0','1','l','0','1','P','1','0'])]
+
+/-- The finalize of the callee realm at the return of a crossing call deletes an object that the
+    caller still holds in a local; re-attaching it persists a reference to a missing object. -/
+theorem dangling_counterexample : verdict (history danglingWitness) = some .dangling := by decide
 
 /-! ### the reference-count clause through the code that changes counts -/
 
@@ -133,6 +164,16 @@ theorem transaction_keeps_refcounts' (s : State) (r : Nat) (ws : List Write) (h 
     WF (finalize (applyWrites s r ws) r) ∧ RCI (finalize (applyWrites s r ws) r) fun _ => 0 :=
   transaction_keeps_refcounts s r ws h hv
 
+/-- EVERY HISTORY: from a transaction boundary (`Quiescent`: exact counts, nothing without id is
+    referenced, empty mark lists), every history of valid transactions of realm `r` — each a list
+    of allocations and writes, then FinalizeRealmTransaction, then the end of the transaction, and
+    dropped as a whole if the finalizer panics — ends in a state where every count is exact. -/
+theorem every_history_keeps_refcounts (s : State) (r : Nat) (txs : List (List Op)) (h : Quiescent s r)
+    (hv : validHistory s r txs) :
+    RCI (runHistory s r txs) (fun _ => 0) ∧ Quiescent (runHistory s r txs) r :=
+  let q := runHistory_quiescent r txs s h hv
+  ⟨q.rci, q⟩
+
 /-- At the end of a transaction the crawl invariant is the statement's clause: the recorded
     reference count of every object equals the number of persisted references to it
     (given that objects already removed from the store are not counted parents). -/
@@ -182,6 +223,24 @@ theorem initState_marks : MarkInv initState 0 := by
     rw [e] at ha; cases ha
   · have e : (initState.marksOf 0).newCreated = [] := by decide
     rw [e] at ha; cases ha
+
+/-- the deployment state is a transaction boundary -/
+theorem initState_quiescent : Quiescent initState 0 := by
+  refine ⟨initState_wf, initState_rci, fun x hu => ?_, by decide, rfl, fun x => ?_⟩
+  · have h10 : ∀ b, b < 10 → initState.isReal b = true := by decide
+    by_cases h : x < 10
+    · rw [h10 x h] at hu; exact absurd hu (by decide)
+    · rw [get_default_of_ge initState x (by
+        have : initState.heap.length = 10 := by decide
+        omega)]
+      decide
+  · have h10 : ∀ b, b < 10 → (initState.get b).newReal = false := by decide
+    by_cases h : x < 10
+    · exact h10 x h
+    · rw [get_default_of_ge initState x (by
+        have : initState.heap.length = 10 := by decide
+        omega)]
+      rfl
 
 /-- non-vacuity of `transaction_keeps_refcounts'`: the deployment state is a valid start, and
     `R0 = nil; R1 = nil` is a valid list of writes of realm 0 -/
